@@ -28,11 +28,11 @@ theorem io_run {α β} (s : WState) (m : M α) (k : α → M (Except ZErr β × 
 def Dev.tick (d : Dev) : Dev := { d with calls := d.calls + 1 }
 
 theorem M.prim_run {α} (f : Dev → Out α × Dev) (fa : Option Nat) (d : Dev) :
-    M.prim f fa d = if fa = some d.calls then (.err (.io .injected), d.tick) else f d.tick := rfl
+    M.prim f fa d = if fa = some d.calls then (.err (.io d.fkind), d.tick) else f d.tick := rfl
 
 theorem M.writeAll_run (bs : Bytes) (h : bs ≠ []) (fa : Option Nat) (d : Dev) :
     M.writeAll bs fa d =
-      if fa = some d.calls then (.err (.io .injected), d.tick)
+      if fa = some d.calls then (.err (.io d.fkind), d.tick)
       else (.ok (), { d.tick with buf := writeAt d.buf d.pos bs, pos := d.pos + bs.length }) := by
   have hb : bs.isEmpty = false := by cases bs <;> simp_all
   unfold M.writeAll
@@ -47,7 +47,7 @@ theorem M.writeAll_run (bs : Bytes) (h : bs ≠ []) (fa : Option Nat) (d : Dev) 
 
 theorem M.seek_start_run (n : Nat) (fa : Option Nat) (d : Dev) :
     M.seek (.start n) fa d =
-      if fa = some d.calls then (.err (.io .injected), d.tick)
+      if fa = some d.calls then (.err (.io d.fkind), d.tick)
       else (.ok n, { d.tick with pos := n }) := by
   unfold M.seek
   rw [M.prim_run]
